@@ -429,20 +429,44 @@ def scen_readonly(spec, L):
                     R.fail("readonly:%s:maskedref_element_reference_writes_through" % spec.name, L=L)
                     if alias is not None:
                         alias[0] = spec.mk(ks[0])
-        # component accessors (V3fArray.x etc. return views into the same storage)
-        for comp in ("x", "y", "z", "w", "r", "g", "b", "a"):
-            if spec.comps:
-                try:
-                    if not hasattr(arr, comp):
-                        continue
-                    view = getattr(arr, comp)
-                    if callable(view):
-                        view = view()
-                except Exception:
+        # whatever an attribute / zero-argument method of the read-only array returns (component views such as V3fArray.x or
+        # QuatfArray.r share its storage; others are copies): writing through it must never change the read-only array
+        for nm in dir(arr):
+            if nm.startswith("_") or nm in ("makeReadOnly", "writable", "ifelse", "reduce", "invert", "normalize", "normalizeExc", "transpose", "negate"):
+                continue
+            try:
+                view = getattr(arr, nm)
+                if callable(view):
+                    view = view()
+                if not type(view).__name__.endswith("Array") or not len(view):
                     continue
-                att("component_view.%s.setitem" % comp, lambda: view.__setitem__(0, view[0] + 1))
-                if hasattr(view, "__iadd__"):
-                    att("component_view.%s.__iadd__" % comp, lambda: view.__iadd__(1))
+                v0 = view[0]
+                other = v0 + 1 if isinstance(v0, (int, float)) and not isinstance(v0, bool) else None
+            except Exception:
+                continue
+            R.cls("readonly_derived_view_write_attempt")
+            for how, f in (("setitem(int)", lambda: view.__setitem__(0, other if other is not None else view[len(view) - 1])),
+                           ("setitem(slice)", lambda: view.__setitem__(slice(None), other if other is not None else view[len(view) - 1])),
+                           ("__iadd__", (lambda: view.__iadd__(1)) if other is not None and hasattr(view, "__iadd__") else None),
+                           ("maskedref.setitem", lambda: view[int_array([1] * len(view))].__setitem__(0, other if other is not None else view[len(view) - 1]))):
+                if f is None:
+                    continue
+                R.ev()
+                attempts.append("attr.%s.%s" % (nm, how))
+                ex = raises(f)
+                got = arr_list(arr)
+                if not same(tuple(got), tuple(model)):
+                    R.fail("readonly:%s:derived_view.%s.%s:data_changed" % (spec.name, nm, how), L=L, got=got[:3], want=model[:3], raised=ex)
+                    for i in range(L if alias is not None else 0):
+                        alias[i] = spec.mk(ks[i])
+            try:
+                if hasattr(view, "writable") and view.writable():
+                    # a writable flag on something that shares the read-only storage is the same defect seen from the other side
+                    probe = arr_list(view)
+                    if other is not None and any(same(probe[0], c) or (isinstance(c, tuple) and probe[0] in c) for c in model[:1]):
+                        R.cls("derived_view_reports_writable")
+            except Exception:
+                pass
         # slices are copies: writable, independent
         cp = arr[:]
         R.ev()
